@@ -9,6 +9,7 @@ use crate::pipeline::OutputMode;
 use crate::render::{RenderConfig, TerminalConfig, TerminalSize};
 use itertools::{intersperse, Itertools};
 use strfmt::{strfmt_map, FmtError, Formatter};
+use unicode_width::UnicodeWidthChar;
 
 pub trait AggregatePrinter {
     fn print(&mut self, row: &data::Aggregate, display_config: &DisplayConfig) -> String;
@@ -281,22 +282,47 @@ struct PrettyPrinter {
 // and display "..." instead
 const ELLIPSIS: &str = "…";
 
+/// The number of terminal cells `s` occupies: East-Asian wide characters and emoji take two,
+/// combining marks none (control characters are counted as none).
+fn display_width(s: &str) -> usize {
+    s.chars().map(|c| c.width().unwrap_or(0)).sum()
+}
+
+/// The longest prefix of `s` that fits into `limit` cells, and the cells it occupies.
+fn take_width(s: &str, limit: usize) -> (String, usize) {
+    let mut prefix = String::new();
+    let mut used = 0;
+    for c in s.chars() {
+        let width = c.width().unwrap_or(0);
+        if used + width > limit {
+            break;
+        }
+        used += width;
+        prefix.push(c);
+    }
+    (prefix, used)
+}
+
+/// `inp` in exactly `limit` terminal cells: padded with blanks, or cut and marked with an ellipsis.
 fn format_with_ellipsis<S: Into<String>>(inp: S, limit: usize) -> String {
     let inp = inp.into();
-    if inp.chars().count() > limit {
+    let width = display_width(&inp);
+    let (mut cell, used) = if width > limit {
         if limit < 2 {
             // no room for the ellipsis and its blank: cut to the column width
-            return inp.chars().take(limit).collect();
+            take_width(&inp, limit)
+        } else {
+            let (mut cut, used) = take_width(&inp, limit - 2);
+            cut.push_str(ELLIPSIS);
+            cut.push(' ');
+            (cut, used + 2)
         }
-        format!(
-            "{str:.prelimit$}{ellipsis} ",
-            str = inp,
-            prelimit = limit - ELLIPSIS.chars().count() - 1,
-            ellipsis = ELLIPSIS
-        )
     } else {
-        format!("{:limit$}", inp, limit = limit)
-    }
+        (inp, width)
+    };
+    // (`{:width$}` pads by characters, not cells)
+    cell.extend(std::iter::repeat(' ').take(limit - used));
+    cell
 }
 
 impl PrettyPrinter {
@@ -478,7 +504,7 @@ impl PrettyPrinter {
             format_with_ellipsis(column_name.as_str(), self.column_widths[column_name])
         });
         let header = header.join("");
-        let header_len = header.chars().count();
+        let header_len = display_width(&header);
         let header = format!("{}\n{}", header.trim_end(), "-".repeat(header_len));
         let mut body = aggregate
             .data
